@@ -3,7 +3,7 @@ import TunnoxModel.Spec.C11
 /-!
 Line protocol for C11 (see harness/c11/main.go):
   case: c <cmdType> p <0|1> f <conn#> s <snd> r <rcv> t <tok|-> b <0|1> m <ref> g <int> k <ref> d <ref> [e <v> <keys>] [q <fault plan>]
-        W [br <0|1>] [ne <0|1>] conns <n> (<step>[><step>…][@<node>])*   (step = <N|U|A|P|F><clientID>; histories run in list order, `Model.connsOf`) maps <n> (<listen>:<target>:<s|t>:<a|i>)* codes <n> (<target>:<0|1|activator>)* doms <n> (<owner>)*
+        W [br <0|1>] [ne <0|1>] [xn <0|1>] conns <n> (<step>[><step>…][@<node>])*   (step = <N|U|A|P|F><clientID>; histories run in list order, `Model.connsOf`) maps <n> (<listen>:<target>:<s|t>:<a|i>)* codes <n> (<target>:<0|1|activator>)* doms <n> (<owner>)*
   obs:  <run> ~ <run>,  run = ret <0|1> rsp <n|o|f> view <…|-> chg <…|-> dlv <…|-> gone <…|-> [dig <…|->]
         (dig = digests of delivered payloads / stored records; stripped before the comparison with the model)
 The driver runs the `.repaired` variant of the model.
@@ -78,7 +78,10 @@ def parseCase' : List String → Option Case
     let rest1 := (match rest0 with | "br" :: _ :: r => r | r => r)
     -- optional `ne <0|1>`: no command executor installed
     let noExec := (match rest1 with | "ne" :: "1" :: _ => true | _ => false)
-    let rest := (match rest1 with | "ne" :: _ :: r => r | r => r)
+    let rest2 := (match rest1 with | "ne" :: _ :: r => r | r => r)
+    -- optional `xn <0|1>`: cross-node machinery (state store, pool, listener) on every node
+    let xnode := (match rest2 with | "xn" :: "1" :: _ => true | _ => false)
+    let rest := (match rest2 with | "xn" :: _ :: r => r | r => r)
     let (conns, rest) ← section_ "conns" parseConn rest
     let (maps, rest) ← section_ "maps" parseMap rest
     let (codes, rest) ← section_ "codes" parseCode rest
@@ -86,7 +89,7 @@ def parseCase' : List String → Option Case
     if !rest.isEmpty then none
     let f ← f.toNat?
     if f ≥ conns.length then none
-    pure ⟨⟨connsOf conns, maps ++ derivedMaps codes, codes, doms, noExec, bridge⟩, f,
+    pure ⟨⟨connsOf conns, maps ++ derivedMaps codes, codes, doms, noExec, xnode, bridge⟩, f,
       ⟨← ct.toNat?, p == "1", s, r, t, b == "1", ← m.toInt?, ← g.toInt?, ← k.toInt?, ← d.toInt?, 0, extra, faults⟩⟩
   | _ => none
 
